@@ -1,5 +1,5 @@
 """C12 — oneshot channels deliver a single value: to one receiver, or (broadcast) a clone to all."""
-from rl import (entry_methods, loc_endswith, path_cond, trace_summary, where, const_of, fmt_val, fmt_loc, fields_of)
+from rl import (method_role, entry_methods, loc_endswith, path_cond, trace_summary, where, const_of, fmt_val, fmt_loc, fields_of)
 from common import (scan_field_writes, w4_pending_stores_waker, w4_helper, contains, poll_variant)
 from engine import NONE
 from lib import CheckerError
@@ -36,7 +36,7 @@ def run(C, R):
                 if fn.get('impl_adt') != st:
                     continue
                 nw += 1
-                if fn.get('name') == 'send':
+                if method_role(F, fn)[0] == 'send':
                     R.ok('C12.R1', '%s|slot-write' % fn['path'])
                 else:
                     R.fail('C12.R1', [fn['path'], 'slot-write-outside-send'],
